@@ -38,7 +38,7 @@ EXHAUSTIVE_SCOPE = "the (kind, level, channel, flavour) table c07.table()"
 
 KINDS = ["constants", "points", "runspecs", "mixed"]
 LEVELS = ["base", "scenario", "both"]
-CHANNELS = ["dict", "file", "file2", "session", "rest", "dict+session", "dict+rest"]
+CHANNELS = ["dict", "file", "file2", "session", "rest", "dict+session", "dict+rest", "dict+session2", "rest-multi"]
 FLAVOURS = ["dsl", "xmile"]
 
 
@@ -51,7 +51,7 @@ def table():
             continue  # run specs have no manager-level form
         if channel in ("file", "file2") and flavour == "dsl":
             continue
-        if channel in ("session", "rest", "dict+session", "dict+rest") and level != "scenario":
+        if channel in ("session", "rest", "dict+session", "dict+rest", "dict+session2", "rest-multi") and level != "scenario":
             continue  # settings are per scenario
         out.append({"kind": kind, "level": level, "channel": channel, "flavour": flavour})
     return out
@@ -130,7 +130,7 @@ def check_case(case):
     reg_sc = {scn: {} for scn in case["scenarios"]}
     late = {}
     for scn, sc in case["scenarios"].items():
-        if channel in ("session", "rest"):
+        if channel in ("session", "rest", "rest-multi"):
             late[scn] = sc
         elif channel.startswith("dict+"):
             reg_sc[scn] = json.loads(json.dumps(sc))
@@ -188,6 +188,23 @@ def check_case(case):
             b.register_scenario_manager({sm: mgr})
             b.register_scenarios(reg_sc, sm)
         # ---- obtain results ----------------------------------------------------
+        if case.get("prior_run") and channel not in ("dict", "file", "file2"):
+            # the scenarios have been simulated before the settings arrive
+            b.run_scenarios(scenarios=list(case["scenarios"]), scenario_managers=[sm], equations=names, return_format="dict")
+        multi = None
+        if channel == "rest-multi":
+            from BPTK_Py import BptkServer
+            holder = b
+            app = BptkServer(__name__, bptk_factory=lambda: holder)
+            app.logger.disabled = True
+            client = app.test_client()
+            client.post("/run", json={"scenario_managers": [sm], "scenarios": list(case["scenarios"]), "equations": names})
+            resp = client.post("/run", json={"scenario_managers": [sm], "scenarios": list(case["scenarios"]), "equations": names,
+                                             "settings": {sm: {scn_: late[scn_] for scn_ in case["scenarios"]}}})
+            if resp.status_code != 200:
+                vs.append(Violation("rest-status:%d" % resp.status_code, "POST /run (two scenarios) returned %d %r" % (resp.status_code, resp.data[:200])))
+                return info, vs
+            multi = json.loads(resp.data)
         for scn in case["scenarios"]:
             a, ref = refs[scn]
             grid = SM.grid(a)
@@ -201,6 +218,24 @@ def check_case(case):
                         break
                     got = {nm: res[sm][scn]["equations"][nm] for nm in names}
                     got = {nm: ([float(x) for x in s.index], [float(x) for x in s]) for nm, s in got.items()}
+                elif channel == "rest-multi":
+                    got = {nm: ([float(k) for k in multi[sm][scn]["equations"][nm].keys()], [float(v) for v in multi[sm][scn]["equations"][nm].values()])
+                           for nm in names}
+                elif channel == "dict+session2":
+                    # a first session with the registered settings only, then a second one that brings the late settings
+                    b.begin_session(scenarios=[scn], scenario_managers=[sm], equations=names)
+                    b.run_step()
+                    b.run_step()
+                    b.end_session()
+                    b.begin_session(scenarios=[scn], scenario_managers=[sm], equations=names, settings={sm: {scn: late[scn]}})
+                    for _ in range(len(grid) + 3):
+                        r = b.run_step()
+                        if r is None or "msg" in r:
+                            break
+                    res = b.session_results(index_by_time=False)
+                    b.end_session()
+                    got = {nm: ([float(k) for k in res[sm][scn]["equations"][nm].keys()], [float(v) for v in res[sm][scn]["equations"][nm].values()])
+                           for nm in names}
                 elif channel in ("session", "dict+session"):
                     b.begin_session(scenarios=[scn], scenario_managers=[sm], equations=names, settings={sm: {scn: late[scn]}},
                                     starttime=grid[0], dt=float(a["dt"]))
@@ -291,7 +326,7 @@ def case_strategy(cfg):
             out = {}
             which = draw(st.sampled_from([["starttime"], ["stoptime"], ["dt"], ["starttime", "stoptime"], ["starttime", "stoptime", "dt"], ["stoptime", "dt"]]))
             dt = Decimal(draw(st.sampled_from(["1", "0.5", "0.25"]))) if "dt" in which else dt0
-            start = start0 + draw(st.integers(1, 3)) if "starttime" in which else start0
+            start = (start0 + draw(st.integers(1, 3)) if (start0 == 0 or draw(st.booleans())) else Decimal(0)) if "starttime" in which else start0
             stop0 = start0 + a["n"] * dt0
             stop = start + draw(st.integers(2, 6)) if "stoptime" in which else stop0
             if stop <= start:
@@ -327,7 +362,7 @@ def case_strategy(cfg):
             scenarios["scA"]["runspecs"] = rvals()
             if draw(st.booleans()):
                 scenarios["scB"]["runspecs"] = rvals()
-        case = {"cfg": cfg, "model": model, "base": base, "scenarios": scenarios}
+        case = {"cfg": cfg, "model": model, "base": base, "scenarios": scenarios, "prior_run": draw(st.booleans())}
         if cfg["channel"].startswith("dict+"):
             late = {}
             for scn in scenarios:
